@@ -33,7 +33,13 @@ def classify_order(defs, expr: ast.AST, graph_names=("g", "G"), depth: int = 0) 
             if c in ("BIJECTIVE", "DUPLICATE"):
                 return "BIJECTIVE", f"dict.fromkeys(..) removes the duplicates of: {why}"
             return "UNKNOWN", f"dict.fromkeys over: {why}"
+        if isinstance(a, ast.Call) and norm(a.func) in ("chain.from_iterable", "itertools.chain.from_iterable") and len(a.args) == 1:
+            return "BIJECTIVE", f"flatten of the (discrete) partition {norm(a.args[0])}: every node once"
+        if isinstance(a, ast.Call) and norm(a.func) in ("chain", "itertools.chain") and len(a.args) == 1 and isinstance(a.args[0], ast.Starred):
+            return "BIJECTIVE", f"flatten of the (discrete) partition {norm(a.args[0].value)}: every node once"
         return classify_order(defs, a, graph_names, depth + 1)
+    if isinstance(e, ast.Call) and norm(e.func) == "sum" and len(e.args) == 2 and isinstance(e.args[1], ast.List) and not e.args[1].elts:
+        return "BIJECTIVE", f"flatten of the (discrete) partition {norm(e.args[0])}: every node once"
     if isinstance(e, ast.ListComp) and len(e.generators) == 2:
         g0, g1 = e.generators
         if norm(g1.iter) == norm(g0.target) and norm(e.elt) == norm(g1.target) and not g0.ifs and not g1.ifs:
